@@ -134,8 +134,8 @@ theorem resolved_map (vr : Variant) (side : Bool) (st : Stk) (d : Nat) :
     (st.map ρ).resolved vr side d = (st.resolved vr side d).map ρ := by
   unfold Stk.resolved
   split
-  · split <;> simp [Stk.map, List.map_drop]
   · rfl
+  · split <;> simp [Stk.map, List.map_drop]
 
 include hrec
 
